@@ -210,6 +210,17 @@ def _glt_named(P):
                               "is_an_entry_of_the_list", "implies(result is not None, exists(j, 0, len(threshold_list), result == threshold_list[j]))"))
 
 
+def score_table_tasks(P):
+    """_get_score_table, per matching class, against the meaning of a table cell (same frame, radius of the ground truth's label beaten, label-policy table);
+    shared with C02, whose dominance invariants read those cells"""
+    idx = P.index
+    for mode in CLASSES:
+        c = score_table_verified_contract(P, mode)
+        ex = dict(matching_score_contracts(P))
+        ex[idx.lookup("common.threshold:get_label_threshold").fq] = _glt_named(P)
+        P.verify(f"{OR}:_get_score_table", name=f"_get_score_table[{mode}]", contract=c, extra_contracts=ex)
+
+
 def build(P):
     idx = P.index
     models(P)
@@ -272,13 +283,7 @@ def build(P):
             c.requires = list(c_main.requires) + [("task_family", FPV if tasks else f"not {FPV}")]
             P.verify(f"{OR}:get_object_results", name=f"get_object_results[3-D, {mode}, {fam}]", contract=c, extra_contracts=extra)
     # ---------------------------------------------------------------- what the table cells mean: _get_score_table per matching class
-    glt = None
-    import contracts.C10 as C10m
-    for mode in CLASSES:
-        c = score_table_verified_contract(P, mode)
-        ex = dict(matching_score_contracts(P))
-        ex[idx.lookup("common.threshold:get_label_threshold").fq] = _glt_named(P)
-        P.verify(f"{OR}:_get_score_table", name=f"_get_score_table[{mode}]", contract=c, extra_contracts=ex)
+    score_table_tasks(P)
 
     P.trust("numpy score-table operations as assumed contracts (externals/nptable.py); tie-breaking of nanargmin/nanargmax unspecified")
     P.assume("the estimate list and the ground-truth list each contain pairwise distinct objects (the property's 'sets')")
